@@ -498,6 +498,41 @@ def memory_bounded(f, op, depth=0):
     return False
 
 
+def _callers_bound(facts, f, a, b):
+    """I-cmp(callers): `param + c` with a small constant c where the parameter is a usize index and every call site passes a
+    value all of whose sources were put through an ordering comparison on every path before the call (the caller has
+    range-checked the index, so it is bounded by a length)"""
+    from ..shapes import roots
+    from .C15 import compared_before
+    cb = op_const(b)
+    if cb is None or "int" not in cb or not (0 <= cb["int"] < 2 ** 16):
+        return None
+    oa = f.origin(a)
+    if oa[0] != "arg" or (len(oa) > 2 and oa[2]) or f.locals[oa[1]] not in ("usize", "u64"):
+        return None
+    k = oa[1]
+    sites = []
+    for p, h in facts.fns.items():
+        if h.crate != f.crate or "::tests::" in p:
+            continue
+        for bb, t in h.calls():
+            if callee(t) == f.path:
+                sites.append((h, bb, t))
+    if not sites:
+        return None
+    for h, bb, t in sites:
+        if k - 1 >= len(t["args"]):
+            return None
+        rts = roots(h, t["args"][k - 1])
+        if not rts:
+            return None
+        for r in rts:
+            root = ("arg", r[1]) if r[0] == "a" else ("local", r[1])
+            if not compared_before(h, bb, root):
+                return None
+    return "I-cmp(callers): the index is a parameter; all %d call site(s) pass a value that was range-compared on every path before the call" % len(sites)
+
+
 def _event_counter(facts, f, a, b):
     """I-count: `self.field + c` with a small constant c on a 64-bit field that is, everywhere in the crate, only ever
     initialised with a constant or incremented by a constant: 2^64 increments are out of reach of any execution"""
@@ -604,6 +639,9 @@ def idiom_arith(facts, s):
         if oa[0] == "local" and op_const(b) is not None and memory_bounded(f, a):
             return "I-mem: counter incremented by a constant once per iteration of a loop over in-memory data"
         why = _event_counter(facts, f, a, b)
+        if why:
+            return why
+        why = _callers_bound(facts, f, a, b)
         if why:
             return why
         return None
